@@ -203,8 +203,8 @@ def check(ctx):
     H = ctx.anchor("C05.d", lambda: A.abort_helper(prog), "abort helper")
     if H is not None:
         ctx.touch(H)
-        setup = [b for b, t, fr in H.iter_calls() if fr and lib.tail(mir.fn_name(fr), 2).endswith("Setup::run") and lib.originates_from_arg(H, t["args"][0], 2)]
-        clean = [b for b, t, fr in H.iter_calls() if fr and lib.tail(mir.fn_name(fr), 2).endswith("Cleanup::run") and lib.originates_from_arg(H, t["args"][0], 3)]
+        setup = [b for b, t, fr in H.iter_calls() if fr and lib.tail(mir.fn_name(fr), 2) == A.names(prog)["setup_run"] and lib.originates_from_arg(H, t["args"][0], 2)]
+        clean = [b for b, t, fr in H.iter_calls() if fr and lib.tail(mir.fn_name(fr), 2) == A.names(prog)["cleanup_run"] and lib.originates_from_arg(H, t["args"][0], 3)]
         cs, _, _ = lib.event_counts(H, setup)
         cc, _, _ = lib.event_counts(H, clean)
         ctx.check(cs == {1} and cc == {1} and all(any(H.dominates(s, c) for s in setup) for c in clean), "C05.d",
